@@ -3,6 +3,9 @@
 package pubsub
 
 import (
+	"encoding/json"
+	"os"
+	"path/filepath"
 	"context"
 	"fmt"
 	"math/rand"
@@ -72,6 +75,7 @@ type vfMock struct {
 	out   network.Stream // B's outbound stream = A's inbound
 	nIn   int
 	recv  []*pb.RPC
+	pause chan struct{} // non-nil: the mock does not read from A's stream until it is closed
 }
 
 func (m *vfMock) install() {
@@ -85,8 +89,14 @@ func (m *vfMock) install() {
 			m.in = s
 			m.nIn++
 			m.mu.Unlock()
-			r := protoio.NewDelimitedReader(s, 1<<20)
+			r := protoio.NewDelimitedReader(s, 1<<22)
 			for {
+				m.mu.Lock()
+				pc := m.pause
+				m.mu.Unlock()
+				if pc != nil {
+					<-pc
+				}
 				var rpc pb.RPC
 				if err := r.ReadMsg(&rpc); err != nil {
 					return
@@ -199,10 +209,11 @@ func vfResidue(ps *PubSub, cm *vfCmgr, p peer.ID) []string {
 
 type vfLifeCfg struct {
 	blacklistOps bool // C16: include BlacklistPeer / direct blacklist insertion
+	noVal1       bool // topic 1 has no validator: its messages are published straight from pushMsg, without the post-validation re-check
 	script       int  // 1: a GRAFT on the peer's own stream while the node's outbound stream to it is down, then (C16) BlacklistPeer / (C13) carry on
 }
 
-func vfLifeHistory(t *testing.T, rng *rand.Rand, nops int, cfg vfLifeCfg) (lit string, rec map[string]any, finalResidue []string, nontrivial bool) {
+func vfLifeHistory(t *testing.T, rng *rand.Rand, nops int, cfg vfLifeCfg) (lit string, rec map[string]any, finalResidue []string, nontrivial bool, queueViol map[string]any) {
 	synctest.Test(t, func(t *testing.T) {
 		ctx, cancel := context.WithCancel(context.Background())
 		defer cancel()
@@ -230,7 +241,19 @@ func vfLifeHistory(t *testing.T, rng *rand.Rand, nops int, cfg vfLifeCfg) (lit s
 			defer tb.(*TimeCachedBlacklist).tc.Done()
 			blKind = "timecached"
 		}
-		psA, err := NewGossipSub(ctx, ha, WithGossipSubParams(gp), WithPeerScore(sp, th), WithPeerGater(gt), WithBlacklist(bl),
+		// every RPC handed to the peer's outbound queue (SendRPC is traced after a successful push), by content
+		var pushedMu sync.Mutex
+		pushed := map[string]int{}
+		st := &vfSendTracer{onSend: func(r *RPC, p peer.ID) {
+			if p == hb.ID() {
+				if b, err := r.RPC.Marshal(); err == nil {
+					pushedMu.Lock()
+					pushed[string(b)]++
+					pushedMu.Unlock()
+				}
+			}
+		}}
+		psA, err := NewGossipSub(ctx, ha, WithRawTracer(st), WithGossipSubParams(gp), WithPeerScore(sp, th), WithPeerGater(gt), WithBlacklist(bl),
 			WithMessageSignaturePolicy(StrictNoSign), WithMessageIdFn(vfMsgID), WithSeenMessagesTTL(3*time.Second))
 		if err != nil {
 			t.Fatal(err)
@@ -240,6 +263,9 @@ func vfLifeHistory(t *testing.T, rng *rand.Rand, nops int, cfg vfLifeCfg) (lit s
 		hold := false
 		gate := make(chan struct{})
 		for tp := 0; tp < 2; tp++ {
+			if tp == 1 && cfg.noVal1 {
+				continue
+			}
 			if err := psA.RegisterTopicValidator(vfTopic(tp), func(ctx context.Context, _ peer.ID, _ *Message) ValidationResult {
 				holdMu.Lock()
 				h, g := hold, gate
@@ -293,6 +319,7 @@ func vfLifeHistory(t *testing.T, rng *rand.Rand, nops int, cfg vfLifeCfg) (lit s
 		var lits []string
 		apiBL := false
 		lastRecv := 0
+		var inflight map[string]int // set at BlacklistPeer: RPCs already handed to the writer and not yet received
 		has := func(r []string, pfx string) bool {
 			for _, x := range r {
 				if x == pfx || strings.HasPrefix(x, pfx+":") {
@@ -330,9 +357,23 @@ func vfLifeHistory(t *testing.T, rng *rand.Rand, nops int, cfg vfLifeCfg) (lit s
 			next:
 			}
 			m.mu.Lock()
-			nrecv := len(m.recv) - lastRecv
+			fresh := m.recv[lastRecv:]
+			nrecv := len(fresh)
 			lastRecv = len(m.recv)
 			m.mu.Unlock()
+			if inflight != nil {
+				// after BlacklistPeer only RPCs count that had not been handed to the peer's writer before the call: what was already
+				// popped from the queue (in the writer's hands or in the transport) cannot be recalled
+				nrecv = 0
+				for _, r := range fresh {
+					b, _ := r.Marshal()
+					if inflight[string(b)] > 0 {
+						inflight[string(b)]--
+					} else {
+						nrecv++
+					}
+				}
+			}
 			isBL := false
 			vfEval(psA, func() { isBL = psA.blacklist.Contains(pb_) })
 			lits = append(lits, fmt.Sprintf("{| lo_v := %s; lo_bl := %v; lo_sent := %d; lo_delivered := %d; lo_api := %v; lo_apinow := %v |}", pvLit(res), isBL, nrecv, nd, apiBL, op == "blacklist-api"))
@@ -350,7 +391,28 @@ func vfLifeHistory(t *testing.T, rng *rand.Rand, nops int, cfg vfLifeCfg) (lit s
 				script = append(script, forcedOp{57, -1, -1})
 			}
 		}
+		if cfg.script == 3 && cfg.blacklistOps {
+			// the peer stops reading, a backlog builds up in its outbound queue, BlacklistPeer, the peer reads again: what
+			// was still queued at that moment must never be handed to the writer
+			script = []forcedOp{{0, -1, -1}, {15, -1, -1}, {40, -1, 0}, {90, 0, 0}, {90, 2, 0}, {95, -1, -1}}
+			for k := 0; k < 12; k++ {
+				script = append(script, forcedOp{64, -1, 0})
+			}
+			script = append(script, forcedOp{57, -1, -1}, forcedOp{96, -1, -1}, forcedOp{54, -1, -1})
+		}
+		if cfg.script == 4 && cfg.blacklistOps {
+			// both routes one after the other on a fully established peer: put into the blacklist directly, then BlacklistPeer
+			script = []forcedOp{{0, -1, -1}, {15, -1, -1}, {40, -1, 0}, {90, 0, 0}, {90, 2, 0}, {58, -1, -1}, {57, -1, -1}, {54, -1, -1}}
+		}
+		if cfg.script == 2 && cfg.blacklistOps {
+			// the peer is put into the blacklist DIRECTLY while the node's outbound stream to it is in its retry delay; the
+			// stream that completes afterwards must be refused
+			script = []forcedOp{{0, -1, -1}, {15, -1, -1}, {40, -1, 0}, {28, -1, -1}, {28, -1, -1}, {58, -1, -1}, {54, -1, -1}, {54, -1, -1}}
+		}
+		var heldQ *rpcQueue
+		heldQLen := 0
 		forcedAPI := false
+		forcedDirect := false
 		for i := 0; i < nops; i++ {
 			r := rng.Intn(100)
 			if cfg.blacklistOps && rng.Intn(12) == 0 {
@@ -360,10 +422,35 @@ func vfLifeHistory(t *testing.T, rng *rand.Rand, nops int, cfg vfLifeCfg) (lit s
 			if i < len(script) {
 				r, fk, ftp = script[i].r, script[i].k, script[i].tp
 				forcedAPI = r == 57
+				forcedDirect = r == 58
 			} else {
+				forcedDirect = false
 				forcedAPI = false
 			}
 			switch {
+			case r == 95:
+				m.mu.Lock()
+				if m.pause == nil {
+					m.pause = make(chan struct{})
+				}
+				m.mu.Unlock()
+				step("peer-stops-reading")
+			case r == 96:
+				m.mu.Lock()
+				if m.pause != nil {
+					close(m.pause)
+					m.pause = nil
+				}
+				m.mu.Unlock()
+				step("peer-reads-again")
+				if heldQ != nil {
+					after := 0
+					vfEval(psA, func() { after = heldQ.queue.Len() })
+					if after < heldQLen {
+						queueViol = map[string]any{"property": "C16", "code": 166, "key": "queued-rpcs-sent-after-blacklistpeer",
+							"what": fmt.Sprintf("%d RPCs were still in the peer's outbound queue when BlacklistPeer was called; afterwards %d of them were taken out of the (closed) queue by its writer, i.e. sent to the blacklisted peer", heldQLen, heldQLen-after)}
+					}
+				}
 			case r < 12:
 				if connected() {
 					continue
@@ -445,7 +532,36 @@ func vfLifeHistory(t *testing.T, rng *rand.Rand, nops int, cfg vfLifeCfg) (lit s
 				time.Sleep(d)
 				step(fmt.Sprintf("sleep %v", d))
 			case r < 59 && cfg.blacklistOps:
-				if forcedAPI || rng.Intn(2) == 0 {
+				if forcedAPI || (!forcedDirect && rng.Intn(2) == 0) {
+					vfEval(psA, func() {
+						// in flight = pushed before the call, not yet received by the peer, and no longer in the queue
+						pushedMu.Lock()
+						inflight = map[string]int{}
+						for k, v := range pushed {
+							inflight[k] = v
+						}
+						pushedMu.Unlock()
+						m.mu.Lock()
+						for _, r := range m.recv {
+							if b, err := r.Marshal(); err == nil && inflight[string(b)] > 0 {
+								inflight[string(b)]--
+							}
+						}
+						m.mu.Unlock()
+						if q, ok := psA.peers[pb_]; ok {
+							heldQ, heldQLen = q, q.queue.Len()
+							q.queueMu.Lock()
+							for _, r := range append(append([]*RPC{}, q.queue.priority...), q.queue.normal...) {
+								if r == nil {
+									continue
+								}
+								if b, err := r.RPC.Marshal(); err == nil && inflight[string(b)] > 0 {
+									inflight[string(b)]--
+								}
+							}
+							q.queueMu.Unlock()
+						}
+					})
 					psA.BlacklistPeer(pb_)
 					apiBL = true
 					step("blacklist-api")
@@ -474,6 +590,13 @@ func vfLifeHistory(t *testing.T, rng *rand.Rand, nops int, cfg vfLifeCfg) (lit s
 				tt := vfTopic(rng.Intn(2))
 				id := nextMid
 				nextMid++
+				if cfg.script == 3 && fk == -1 && ftp == 0 {
+					// a big message without author, so that it is forwarded to the (subscribed, grafted) peer
+					tt = vfTopic(0)
+					mc.send(&pb.RPC{Publish: []*pb.Message{{Data: []byte(fmt.Sprintf("%d:", id) + strings.Repeat("z", 200000)), Topic: &tt}}})
+					step("third-party-publishes-a-big-message " + tt)
+					continue
+				}
 				mc.send(&pb.RPC{Publish: []*pb.Message{{Data: []byte(fmt.Sprintf("%d:y", id)), Topic: &tt, From: []byte(pb_)}}})
 				step("third-party-relays-message-authored-by-peer " + tt)
 			default: // B sends something
@@ -527,6 +650,12 @@ func vfLifeHistory(t *testing.T, rng *rand.Rand, nops int, cfg vfLifeCfg) (lit s
 			close(gate)
 		}
 		holdMu.Unlock()
+		m.mu.Lock()
+		if m.pause != nil {
+			close(m.pause)
+			m.pause = nil
+		}
+		m.mu.Unlock()
 		hb.Close() // gone for good: A cannot dial it again
 		m.out = nil
 		step("final-disconnect")
@@ -539,7 +668,7 @@ func vfLifeHistory(t *testing.T, rng *rand.Rand, nops int, cfg vfLifeCfg) (lit s
 		finalResidue = vfResidue(psA, cm, pb_)
 		recSteps = append(recSteps, map[string]any{"op": "after-retention", "residue": finalResidue})
 		lit = fmt.Sprintf("{| lc_steps := [\n    %s];\n   lc_final := %s |}", strings.Join(lits, ";\n    "), pvLit(finalResidue))
-		rec = map[string]any{"proto": string(proto), "blacklist_impl": blKind, "steps": recSteps, "blacklisted": blacklisted}
+		rec = map[string]any{"proto": string(proto), "blacklist_impl": blKind, "steps": recSteps, "blacklisted": blacklisted, "backlog_at_blacklistpeer": heldQLen}
 		nontrivial = nLate > 0 && len(recSteps) > 10
 		for _, s := range subs {
 			s.Cancel()
@@ -564,12 +693,32 @@ func TestVF_Life(t *testing.T) {
 	cs.shard = 60
 	rng := vfRng(13)
 	ncases := vfN(120, 1200)
+	wroteQV := false
+	nBacklog := 0
 	for c := 0; c < ncases; c++ {
-		cfg := vfLifeCfg{blacklistOps: c%2 == 1}
+		cfg := vfLifeCfg{blacklistOps: c%2 == 1, noVal1: (c/8)%2 == 0}
 		if c%4 >= 2 {
 			cfg.script = 1
 		}
-		lit, rec, _, nt := vfLifeHistory(t, rng, 30+rng.Intn(50), cfg)
+		if c%8 == 5 {
+			cfg.script = 2
+		}
+		if c%8 == 1 {
+			cfg.script = 3
+		}
+		if c%8 == 7 {
+			cfg.script = 4
+		}
+		lit, rec, _, nt, qv := vfLifeHistory(t, rng, 30+rng.Intn(50), cfg)
+		if qv != nil && !wroteQV {
+			wroteQV = true
+			qv["case"] = rec
+			js, _ := json.MarshalIndent(qv, "", " ")
+			os.WriteFile(filepath.Join(vfOutDir(t), "violation_life_queue.json"), js, 0o644)
+		}
+		if b, ok := rec["backlog_at_blacklistpeer"]; ok && b.(int) > 0 {
+			nBacklog++
+		}
 		cs.add(lit, rec, nt)
 		if cfg.blacklistOps {
 			cs.kind("with-blacklisting")
@@ -577,6 +726,14 @@ func TestVF_Life(t *testing.T) {
 			cs.kind("plain")
 		}
 	}
-	cs.flush("random lifecycles of a remote peer over REAL streams against a real gossipsub node (scoring, gater, extensions, recording connection manager; protocol versions floodsub .. v1.3): connect, open / close / reset of either stream direction in any order, RPCs of every kind incl. on a stream that outlives the other direction, node-side subscribe / cancel / heartbeats, virtual time, disconnects followed by redials, a third party relaying messages that name the peer as author, and (every other history) BlacklistPeer or direct insertion into a map / time-cached blacklist at a random point; after EVERY action every per-peer map of the node is inspected inside the event loop; at the end the peer's host is closed and 17 s with 34 heartbeats pass. " +
+	cs.extra["histories_with_a_backlog_at_blacklistpeer"] = nBacklog
+	cs.flush("random lifecycles of a remote peer over REAL streams against a real gossipsub node (scoring, gater, extensions, recording connection manager; protocol versions floodsub .. v1.3): connect, open / close / reset of either stream direction in any order, RPCs of every kind incl. on a stream that outlives the other direction, node-side subscribe / cancel / heartbeats, virtual time, disconnects followed by redials, a third party relaying messages that name the peer as author, a peer that stops reading while big messages are forwarded to it (a backlog in its outbound queue at the moment of BlacklistPeer), and (every other history) BlacklistPeer or direct insertion into a map / time-cached blacklist at a random point; after EVERY action every per-peer map of the node is inspected inside the event loop; at the end the peer's host is closed and 17 s with 34 heartbeats pass. " +
 		"non-trivial = at least one RPC sent on the inbound stream while the outbound stream was down and more than 10 actions; distinct = hash of the observations")
 }
+
+type vfSendTracer struct {
+	vfNopTracer
+	onSend func(*RPC, peer.ID)
+}
+
+func (s *vfSendTracer) SendRPC(r *RPC, p peer.ID) { s.onSend(r, p) }
